@@ -19,7 +19,7 @@ LEVEL = "exploration"
 RULE = (
     "one case per input text run through Program.assemble_string_with_emitter under the T-steps monitor (LINE+PY_START+JUMP events inside "
     "a816): every sequence of <= 2 (quick) / <= 3 (thorough) tokens over a 72-token alphabet joined with '', ' ' and newline, random "
-    "sequences of 3-30 tokens, inputs with .include/.incbin/.table/.include_ips of missing, existing and self-including files run through the file "
+    "sequences of 3-30 tokens, operand and directive expressions drawn from a grammar (unary/binary operators over small, large and negative values), inputs with .include/.incbin/.table/.include_ips of missing, existing, self-including and mutually including (2- and 3-cycles) files run through the file "
     "front end under an absolute and a relative source path, and every truncation (each character position), token deletion and duplication of valid generated programs; "
     "violated when the step count exceeds B = 200000 + 20000*len + sum over .for expansions of trips*(2000+200*len); distinct by hash of the "
     "text; non-trivial = the monitor counted at least one step for it"
@@ -198,6 +198,7 @@ def plan(tier: str, seed: int) -> list[dict]:
     shards += [{"kind": "mutate", "seed": seed * 100_000 + i, "programs": progs} for i in range(mn)]
     shards += [{"kind": "recursion", "seed": seed * 100_000 + i, "n": 40 if tier == "quick" else 200} for i in range(4)]
     shards += [{"kind": "files", "seed": seed * 100_000 + i, "n": 60 if tier == "quick" else 600} for i in range(4)]
+    shards += [{"kind": "expr", "seed": seed * 100_000 + i, "n": 400 if tier == "quick" else 4000} for i in range(4)]
     return shards
 
 
@@ -233,7 +234,27 @@ FILE_TEXTS = [
     ".include 'nofile_c15.s'\n", "*=0x008000\n.db 1\n.include 'sub/dir/nofile_c15.s'\n.db 2\n", ".incbin 'nofile_c15.bin'\n", ".table 'nofile_c15.tbl'\n",
     ".include_ips 'nofile_c15.ips', 0\n", ".include 'exists_c15.s'\n", ".include '../nofile_c15.s'\n", ".include '/nofile_c15.s'\n", ".include ''\n", ".include '.'\n",
     ".include 'exists_c15.s'\n.include 'exists_c15.s'\n", ".include 'self_c15.s'\n", "{\n.include 'nofile_c15.s'\n}\n", ".include 'main_c15.s'\n",
+    ".include 'cyc_a_c15.s'\n", ".db 1\n.include 'cyc3_a_c15.s'\n.db 2\n", ".include 'cyc_b_c15.s'\n.include 'cyc_a_c15.s'\n",
 ]
+SIDE_FILES = {"exists_c15.s": ".db 7\n", "self_c15.s": ".db 8\n.include 'self_c15.s'\n",
+              "cyc_a_c15.s": ".db 1\n.include 'cyc_b_c15.s'\n", "cyc_b_c15.s": ".db 2\n.include 'cyc_a_c15.s'\n",
+              "cyc3_a_c15.s": ".include 'cyc3_b_c15.s'\n", "cyc3_b_c15.s": "nop\n.include 'cyc3_c_c15.s'\n", "cyc3_c_c15.s": ".include 'cyc3_a_c15.s'\nnop\n"}
+
+
+def gen_expr_text(rng: random.Random, depth: int, operand: bool) -> str:
+    """Expression soup: unary and binary operators over small, large and negative values (| and ~ only where the operand lexer reads them)."""
+    c = rng.random()
+    if depth <= 0 or c < 0.3:
+        return rng.choice(["0", "1", "2", "5", "0xFF", "0x100", "0xFFFF", "0xFFFFFF", "0xFFFFFFFF", "0x100000000", "1099511627776", "kk", "nn"])
+    if c < 0.5:
+        ops = ["-", "-", "~", "~"] if operand else ["-"]
+        return rng.choice(ops) + gen_expr_text(rng, depth - 1, operand)
+    if c < 0.6:
+        return "(" + gen_expr_text(rng, depth - 1, operand) + ")"
+    ops = ["+", "-", "*", "&", "<<", ">>"] + (["|"] if operand else [])
+    op = rng.choice(ops)
+    right = rng.choice(["0", "1", "3", "8", "31", "64"]) if op in ("<<", ">>") else gen_expr_text(rng, depth - 1, operand)
+    return gen_expr_text(rng, depth - 1, operand) + rng.choice(["", " "]) + op + rng.choice(["", " "]) + right
 
 
 def run_shard(shard: dict) -> Res:
@@ -260,12 +281,22 @@ def run_shard(shard: dict) -> Res:
                 run_text(res, text, "random")
                 if i == 0:
                     res.sample({"family": "random", "text": text})
+        elif shard["kind"] == "expr":
+            rng = random.Random(shard["seed"] ^ 0xE5)
+            for i in range(shard["n"]):
+                operand = rng.random() < 0.7
+                e = gen_expr_text(rng, rng.randint(1, 4), operand)
+                tpl = rng.choice(["lda #{e}\n", "lda.b #{e}\n", "lda.w {e},x\n", "and #{e}\n"]) if operand else \
+                    rng.choice([".db {e}\n", ".dl {e}\n", "zz := {e}\n.dw zz\n", "zz = {e}\n.dw zz\n", ".if {e} {{\nnop\n}}\n", ".for zi := 0, ({e}) & 3 {{\nnop\n}}\n"])
+                text = "*=0x008000\nkk := 3\nnn := 0 - 1\n" + tpl.format(e=e)
+                run_text(res, text, "expr")
+                if i == 0:
+                    res.sample({"family": "expr", "text": text})
         elif shard["kind"] == "files":
             # the same inputs through the file front end, the source named by an absolute and by a relative path
-            with open("exists_c15.s", "w") as f:
-                f.write(".db 7\n")
-            with open("self_c15.s", "w") as f:
-                f.write(".db 8\n.include 'self_c15.s'\n")
+            for name, content in SIDE_FILES.items():
+                with open(name, "w") as f:
+                    f.write(content)
             rng = random.Random(shard["seed"] ^ 0xF11E)
             texts = list(FILE_TEXTS)
             for _ in range(shard["n"]):
@@ -313,7 +344,7 @@ def replay(w: dict) -> Res:
             res.violate(v["mechanism"], v["detail"], v["witness"])
         return res
     install_for_tap()
-    with Scratch({"exists_c15.s": ".db 7\n", "self_c15.s": ".db 8\n.include 'self_c15.s'\n"}):
+    with Scratch(dict(SIDE_FILES)):
         run_text(res, w["text"], w.get("family", "replay"), w.get("via", "string"))
     return res
 
@@ -325,7 +356,7 @@ if __name__ == "__main__":
         logging.disable(logging.CRITICAL)
         k = json.loads(sys.stdin.read())
         try:
-            with Scratch({"exists_c15.s": ".db 7\n", "self_c15.s": ".db 8\n.include 'self_c15.s'\n"}) as sc:
+            with Scratch(dict(SIDE_FILES)) as sc:
                 _run_via(k["text"], k.get("via", "string"), sc.dir, None)
             print("ended: ok")
         except BaseException as e:  # noqa: BLE001
